@@ -400,7 +400,9 @@ def run_batch_scenario(idx, sc, texts):
             body = ("\n".join([t] * reps)).encode()
             if rnd.random() < 0.2:
                 body = b""
-            enc = rnd.choice(["utf8", "utf8", "utf8bom", "utf16le"])
+            if sc.get("mode") == "stdout":
+                body = ("\n".join([t] * rnd.choice([1, 5, 40, 80, 200]))).encode()
+            enc = rnd.choice(["utf8", "utf8", "utf8bom", "utf16le"]) if sc.get("mode") != "stdout" else "utf8"
             if enc == "utf8bom":
                 body = b"\xef\xbb\xbf" + body
             elif enc == "utf16le":
@@ -420,10 +422,37 @@ def run_batch_scenario(idx, sc, texts):
         rnd.shuffle(paths)
         trace = os.path.join(root, "trace.ndjson")
         env = {"RAYON_NUM_THREADS": str(sc["threads"]), "PASFMT_VERIF_TRACE": trace}
-        rc, out, err = run_bin(paths if sc.get("explicit", True) else [d], root, env=env)
-        what = f"n={n} threads={sc['threads']} failing={sorted(fails)}"
+        mode_args = ["--mode", "stdout"] if sc.get("mode") == "stdout" else []
+        rc, out, err = run_bin(mode_args + (paths if sc.get("explicit", True) else [d]), root, env=env)
+        what = f"n={n} threads={sc['threads']} failing={sorted(fails)}" + (" mode=stdout" if mode_args else "")
         if (rc != 0) != bool(fails):
             problems.append({"clause": "exit_status", "detail": f"exit status {rc} but the failing files are {sorted(fails)} ({what}); stderr {err[-300:].decode(errors='replace')}"})
+        if mode_args:
+            # stdout mode: the result of a file is its block `path:\n<text>\n`; the output must be the blocks of the good files in
+            # some order, each in one piece, and no file may change
+            blocks = {}
+            for nm, body in files.items():
+                if body is None or nm in fails:
+                    continue
+                rc1, text = oracle(body)
+                if rc1 != 0:
+                    return [], True, []
+                blocks[nm] = os.path.join(d, nm).encode() + b":\n" + text + b"\n"
+            pos, remaining = 0, dict(blocks)
+            while pos < len(out):
+                hit = next((nm for nm, b in remaining.items() if out.startswith(b, pos)), None)
+                if hit is None:
+                    problems.append({"clause": "stdout_blocks", "detail": f"at byte {pos} of {len(out)} the output is not the start of any remaining file's block `path:<LF>text<LF>` ({len(remaining)} of {len(blocks)} blocks remaining): {out[pos:pos + 60]!r} ({what})"})
+                    break
+                pos += len(remaining.pop(hit))
+            else:
+                if remaining:
+                    problems.append({"clause": "stdout_blocks", "detail": f"no block was printed for {sorted(remaining)[:5]} ({what})"})
+            for nm, body in files.items():
+                if body is not None and open(os.path.join(d, nm), "rb").read() != body:
+                    problems.append({"clause": "only_files_mode_writes", "detail": f"{nm} was modified in stdout mode ({what})"})
+            events = [json.loads(l) for l in open(trace) if l.strip()] if os.path.exists(trace) else []
+            return problems, False, events
         for nm, body in files.items():
             p = os.path.join(d, nm)
             if body is None:
